@@ -286,6 +286,27 @@ func dTotal(g *G) {
 		arg := fmt.Sprintf("%s|%s|%s|q%d", ctxStr(c), decStr(xj), decStr(yj), q)
 		g.emit(guarded(name, arg, true, func() *apd.Decimal { return ent.f(decCtx(c), decDec(xj), decDec(yj), q) }), "X/"+name)
 	}
+	// high precision with tiny / moderate arguments for the iterative functions (a few hundred calls)
+	hp := []string{"Context.Exp", "Context.Ln", "Context.Log10", "Context.Sqrt", "Context.Cbrt", "Context.Pow"}
+	args := []Dec{finDec(false, big.NewInt(1), -350), finDec(true, big.NewInt(1), -310), finDec(false, big.NewInt(5), -400), finDec(false, big.NewInt(1), -30),
+		finDec(false, big.NewInt(5), -1), finDec(false, big.NewInt(123456), -3), finDec(true, big.NewInt(77), -1)}
+	for _, p := range []int{50, 120, 320, 400} {
+		for _, name := range hp {
+			var ent entry
+			for _, e := range ents {
+				if e.name == name {
+					ent = e
+				}
+			}
+			for _, xj := range args {
+				xj := xj
+				c := Ctx{P: p, Emin: -100000, Emax: 100000, R: "half_even", T: []int{0, 0x7af}[g.R.Intn(2)]}
+				yj := finDec(false, big.NewInt(5), -1)
+				arg := fmt.Sprintf("%s|%s|%s", ctxStr(c), decStr(xj), decStr(yj))
+				g.emit(guarded(name, arg, true, func() *apd.Decimal { return ent.f(decCtx(c), decDec(xj), decDec(yj), 0) }), "highprec/"+name)
+			}
+		}
+	}
 	// constructors and setters on int64 / float64 boundaries
 	for _, v := range int64Boundaries() {
 		v := v
